@@ -14,6 +14,10 @@ Structural clauses decided:
  R5 interface shapes   where the supported subsystems return arrays of different rank for the same scalar-interface method (W_l: 1-D in
                     TwoPointInteraction, (nu, 1) in Revolute; W_l_q: 2-D vs (nu, 1, nq)) every use in a force law is shape-normalised
                     (`.reshape(...)`, `.ravel()`, an argument of np.outer): otherwise the element cannot be assembled/evaluated on one of them
+ R6 fresh tracking    `subsystem.l` of a Revolute reads and updates tracking fields (n_full_rotations, previous_quadrant); the default
+                    l_ref = l(t0, q0) is the angle of the *initial configuration* only if the subsystem's assembler_callback (which every
+                    law runs first) assigns each of these fields unconditionally.  (C24.R2 reports the other side of this design
+                    as the open finding F15: the unconditional reset forgets the turn count at a restart.)
  R4 no overwrite    an explicitly given l_ref is never overwritten (all stores to self.l_ref are __init__ or guarded)
 """
 from __future__ import annotations
@@ -44,6 +48,8 @@ def run(ctx):
     rep.rule("C09.R2", "sibling idiom of the default reference length", 6)
     rep.rule("C09.R3", "length enters force/energy only through (l - ... - l_ref)", 6)
     rep.rule("C09.R4", "explicit l_ref is never overwritten", 3)
+    rep.rule("C09.R6", "tracking state read by subsystem.l is (re)initialised unconditionally before the default l_ref is evaluated", 2)
+    r6_fresh_tracking(ctx)
     rep.rule("C09.R5", "rank-normalised use of scalar-interface arrays whose rank differs between the supported subsystems", 8)
     r5_interface_shapes(ctx)
     model = ctx.model
@@ -219,6 +225,39 @@ def r5_interface_shapes(ctx):
         raise AnalysisError(f"only {n} uses of rank-differing interface methods found in the force laws")
 
 
+def r6_fresh_tracking(ctx):
+    rep = ctx.rep
+    model = ctx.model
+    for cname in tables.SCALAR_SUBSYSTEMS:
+        ci = model.cls(cname)
+        c, lfn = model.find_method(ci, "l")
+        if lfn is None:
+            raise AnalysisError(f"{cname}.l vanished")
+        hist = set()
+        for n in ast.walk(lfn):
+            tg = n.targets if isinstance(n, ast.Assign) else ([n.target] if isinstance(n, ast.AugAssign) else [])
+            for t in tg:
+                if isinstance(t, ast.Attribute) and dotted(t.value) == "self":
+                    hist.add(t.attr)
+        C = f"{ci.rel}:{cname}.assembler_callback"
+        if not hist:
+            rep.ok("C09.R6", f"{ci.rel}:{cname}.l", "the length query keeps no tracking state (pure)")
+            continue
+        c2, ac = model.find_method(ci, "assembler_callback")
+        if ac is None:
+            raise AnalysisError(f"{cname}.assembler_callback vanished")
+        for h in sorted(hist):
+            top = [st for st in ac.body if isinstance(st, ast.Assign) and any(isinstance(t, ast.Attribute) and t.attr == h and dotted(t.value) == "self" for t in st.targets)]
+            anywhere = [st for st in ast.walk(ac) if isinstance(st, ast.Assign) and any(isinstance(t, ast.Attribute) and t.attr == h and dotted(t.value) == "self" for t in st.targets)]
+            if top:
+                rep.ok("C09.R6", C, f"self.{h} = {norm_src(top[0].value)} on every path of the callback")
+            else:
+                where = anywhere[0] if anywhere else ac
+                rep.bad("C09.R6", C, where if anywhere else f"self.{h}", f"`{cname}.l` updates the tracking field `self.{h}`, but assembler_callback does not assign it on every path"
+                        f"{' (only under a guard)' if anywhere else ''}: a force law attached after the joint was used gets its default l_ref = l(t0, q0) from stale tracking "
+                        f"state, so force and energy are not zero in the initial configuration once the joint is reset", f"{ci.rel}:{getattr(where, 'lineno', ac.lineno)}")
+
+
 def _stmt(n):
     from ..core import enclosing_stmt
     return enclosing_stmt(n)
@@ -262,6 +301,11 @@ MUTANTS += [
          old="        return self.force(t, q, u) * self.subsystem.W_l(t, q[1:]).reshape(self._nu)", new="        return self.force(t, q, u) * self.subsystem.W_l(t, q[1:])", expect="C09.R5"),
     dict(id="c09-r5-2", what="ScalarForceLawBase._h drops the reshape", file="cardillo/force_laws/_base.py",
          old="        return self.la_c(t, q, u) * self.subsystem.W_l(t, q).reshape(self.subsystem._nu)\n", new="        return self.la_c(t, q, u) * self.subsystem.W_l(t, q)\n", expect="C09.R5"),
+]
+MUTANTS += [
+    dict(id="c09-seed", canary=True, what="[seeded by sub-agent] Revolute.assembler_callback initialises the tracking fields only on the first assembly", file="cardillo/constraints/revolute.py",
+         old="    def assembler_callback(self):\n        self.n_full_rotations = 0\n        self.previous_quadrant = 1\n",
+         new="    def assembler_callback(self):\n        if not hasattr(self, \"n_full_rotations\"):\n            self.n_full_rotations = 0\n            self.previous_quadrant = 1\n", expect="C09.R6"),
 ]
 NEUTRAL = [
     dict(id="c09-n-r5", canary=True, what="MaxwellElement.h normalises with ravel()", file=MX,
